@@ -285,6 +285,13 @@ func (rd *realDecoder) getCompactInt32Array() ([]int32, error) {
 
 	arrayLength := int(n) - 1
 
+	if arrayLength < 0 {
+		return nil, errInvalidArrayLength
+	} else if arrayLength > rd.remaining()/4 {
+		rd.off = len(rd.raw)
+		return nil, ErrInsufficientData
+	}
+
 	ret := make([]int32, arrayLength)
 
 	for i := range ret {
